@@ -42,8 +42,8 @@ type def struct {
 	store *ssa.Store
 	scan  *scanCall
 	col   int
-	clos  *ssa.Function // dClosure
-	fv    *ssa.FreeVar  // the closure's free variable for the cell
+	clos  *ssa.Function       // dClosure
+	fv    *ssa.FreeVar        // the closure's free variable for the cell
 	call  ssa.CallInstruction // dHelper
 	param *ssa.Parameter      // dHelper: the helper's parameter that points to the object
 }
@@ -1489,9 +1489,18 @@ func (e *termEval) structFieldOfCall(call *ssa.Call, idx, field int, fr *frame, 
 		return nil
 	}
 	if !m.isWriteHelper(callee) {
+		// ... or a row reader that scans into a struct it returns (`c.readXattrReadRow(key)`)
+		scans := false
+		for _, sc := range m.scanCalls() {
+			if sc.Fn == callee {
+				scans = true
+			}
+		}
 		// ... or a straight-line accessor that merely packs values into a struct (`c.docKey(key)`)
-		if rv, _ := m.accessorResult(call, idx, fr); rv == nil {
-			return nil
+		if !scans {
+			if rv, _ := m.accessorResult(call, idx, fr); rv == nil {
+				return nil
+			}
 		}
 	}
 	cfr := fr.inline(call, callee)
